@@ -40,6 +40,8 @@ def history_check(ctx, out, ops, impl, what):
     The operations are run again in ANOTHER order, chosen so that look-alike inputs sit next to each other in one process (sorted by
     operation and by the payload without its leading zero bytes, shorter first; then the same backwards), and every answer must be the
     one of the first run. Catches state that survives a call: caches, memo tables, statics shared by generic instantiations."""
+    if C.HANGS_SEEN["n"]:
+        return      # operations of this run did not return: that is the finding; no further passes
     def key(i):
         f = ops[i].split(" ")
         payload = f[-1] if len(f) > 1 else ""
@@ -76,6 +78,8 @@ def release_check(ctx, out, ops, impl, what):
     """The same operations through the RELEASE build of the harness (no overflow checks, no debug assertions): the answers must be
     those of the dev build. Catches behaviour that depends on the build profile (wrapping arithmetic, side effects inside
     debug_assert!). The property module must set NEEDS_RELEASE = True so that the flow builds that harness."""
+    if C.HANGS_SEEN["n"]:
+        return
     rel = ctx.harness(ops, release=True)
     n = 0
     for o, a, r in zip(ops, impl, rel):
